@@ -49,7 +49,8 @@ def base_programs(quick):
 def top_level_blocks(text):
     """[(start line idx, end idx exclusive, kind, name)] of col-0 statements"""
     lines = text.splitlines()
-    starts = [i for i, l in enumerate(lines) if l and not l[0].isspace() and not l.startswith("#")]
+    starts = [i for i, l in enumerate(lines) if l and not l[0].isspace() and not l.startswith("#")
+              and not re.match(r"(else|elif|except|finally)\b", l)]          # (continuation clauses belong to the statement before them)
     blocks = []
     for a, b in zip(starts, starts[1:] + [len(lines)]):
         m = re.match(r"(def|class)\s+(\w+)", lines[a])
